@@ -55,6 +55,30 @@ class NpShim:
         return getattr(np, name)
 
 
+import contextlib
+
+
+@contextlib.contextmanager
+def shimmed(S, shim):
+    """`np` of the generators' module replaced by the recording shim -- and the same objects under other names
+    (`from numpy.random import default_rng`, `import numpy.random as npr`)"""
+    import importlib
+    from common import alias_patches
+    mod = importlib.import_module("causationentropy.datasets.synthetic")
+    real_np = mod.np
+    al = alias_patches(mod, [(np.random.default_rng, shim.random.default_rng), (np.random, shim.random)])
+    saved = {k_: getattr(mod, k_) for k_ in al}
+    mod.np = shim
+    for k_, v_ in al.items():
+        setattr(mod, k_, v_)
+    try:
+        yield
+    finally:
+        mod.np = real_np
+        for k_, v_ in saved.items():
+            setattr(mod, k_, v_)
+
+
 def _odd_user_graph(n, rng):
     """a user-built digraph: nodes 0..n-1 inserted in no particular order, self-loops (own-history terms) allowed and often dominant"""
     G = nx.DiGraph()
@@ -99,7 +123,7 @@ def check(run, driver):
         np.random.seed(seed % 1000); random.seed(seed % 77)
         st_np, st_py = np.random.get_state()[1].copy(), random.getstate()
         Gsnap = None if G is None else (list(G.nodes(data=True)), [(a, b, dict(d)) for a, b, d in G.edges(data=True)])
-        with patched(S, "np", shim):
+        with shimmed(S, shim):
             XY, A = call_form(S.linear_stochastic_gaussian_process, "linear_stochastic_gaussian_process", it, G=G, **cfg)      # the SAME graph object is handed in on every call; every documented call form in turn
         globals_untouched = np.array_equal(st_np, np.random.get_state()[1]) and st_py == random.getstate()
         # same seed again, after unrelated global RNG activity
@@ -195,7 +219,7 @@ def check(run, driver):
         cfg = dict(n=n, T=T, p=p, lambda_base=lam, coupling_strength=c, seed=seed)
         shim = NpShim()
         st_np, st_py = np.random.get_state()[1].copy(), random.getstate()
-        with patched(S, "np", shim):
+        with shimmed(S, shim):
             X, A = call_form(S.poisson_coupled_oscillators, "poisson_coupled_oscillators", it, G=G, **cfg)
         globals_untouched = np.array_equal(st_np, np.random.get_state()[1]) and st_py == random.getstate()
         np.random.rand(3)
